@@ -8,6 +8,7 @@ snapshots of the operands and of the tensors that own them before/after.
 import itertools
 
 from fibertree import Fiber, Payload, Tensor
+from fibertree.core.coord_payload import CoordPayload
 
 from fvmon import gen
 from fvmon.observe import content, snap, idset, RC, unbox, rc_kind
@@ -93,7 +94,9 @@ def _random_case(rng):
         db = default if rng.random() < 0.6 else rng.choice([d for d in (0, 7, -1, 2) if d != default])
         return {"kind": "pair", "a": gen.rand_leaf_spec(rng, ext, rng.random(), 0.15, default, values=[1, 2, 3, 0, 7, -1, 5]),
                 "b": gen.rand_leaf_spec(rng, ext, rng.random(), 0.15, db, values=[1, 2, 3, 0, 7, -1, 5]),
-                "setting": rng.choice(["free", "tensor"]), "default": default, "default_b": db}
+                "setting": rng.choice(["free", "tensor"]), "default": default, "default_b": db,
+                # operands handed over as lazy fibers (an iterator of elements, explicit defaults included)
+                "lazy": rng.choice([None, None, "a", "b", "ab"])}
     if r < 0.45:
         e = [rng.randint(1, 5), rng.randint(1, 4)]
         return {"kind": "pair", "a": gen.rand_tree_spec(rng, e, 0.6, 0.5, default),
@@ -188,6 +191,19 @@ def _build(case):
     raise ValueError(st)
 
 
+def _lazy_view(f, default):
+    """A lazy fiber (Fiber.fromIterator) whose iterator hands out the stored elements of the eager fiber `f`."""
+    elems = list(zip(f.coords, f.payloads))
+
+    class _It:
+        def __iter__(self):
+            for c, p in elems:
+                yield CoordPayload(c, p)
+
+    # (a lazy fiber cannot estimate its shape: like every lazy fiber the library itself produces, it carries an active range)
+    return Fiber.fromIterator(_It, default=default, active_range=tuple(f.getActive()))
+
+
 def _consume(mon, fiber, cap, what):
     out = []
     it = iter(fiber)
@@ -266,10 +282,19 @@ def _run_pair(case, mon):
         mon.count("pairs_with_different_defaults")
     pa, pb = _present(a, d, fa), _present(b, db, fb)
     any_yield = False
+    lazy = case.get("lazy") if case["setting"] == "free" else None
+    if lazy:
+        # the same elements (the stored payload objects themselves, explicit defaults included) offered by a lazy fiber:
+        # what an operand presents does not depend on whether it is stored or produced on demand
+        if "a" in lazy:
+            a = _lazy_view(a, d)
+        if "b" in lazy:
+            b = _lazy_view(b, db)
+        mon.count("pairs_with_lazy_operands")
     for op in OPS:
         if op == "-" and fa == "U":
             continue
-        what = f"a{op}b" + ("" if (fa, fb) == ("C", "C") else f"[{fa}{fb}]") + (":interior" if interior else "")
+        what = f"a{op}b" + ("" if (fa, fb) == ("C", "C") else f"[{fa}{fb}]") + (":interior" if interior else "") + (":lazy" if lazy else "")
         exp = _expected(op, pa, pb)
         cap = len(pa) + len(pb) + 2
         try:
